@@ -22,6 +22,7 @@ import (
 
 	"github.com/tmpim/casket"
 	_ "github.com/tmpim/casket/caskethttp"
+	"github.com/tmpim/casket/caskethttp/httpserver"
 
 	"verifharness/hx"
 )
@@ -196,7 +197,7 @@ func c08FreePort() int { return c08Ports.reserve(false) }
 
 // kinds whose number of `on` directives can be chosen with the suffix .h<N> (N one decimal digit), and the number
 // the plain spelling stands for
-var c08HookDefault = map[string]int{"H1": 1, "argE": 1, "argL": 1, "tlsM": 1, "logE": 1, "mux": 1, "busy3": 0, "leak13": 1, "leak123": 0}
+var c08HookDefault = map[string]int{"H1": 1, "argE": 1, "argL": 1, "tlsM": 1, "logE": 1, "mux": 1, "busy3": 0, "leak13": 1, "leak123": 0, "udp1": 0}
 
 // c08SplitKind splits <base>.h<N> into base and N; a kind without the suffix registers its default number of hooks
 func c08SplitKind(kind string) (string, int, bool) {
@@ -304,6 +305,10 @@ func c08Config(kind string, p [4]int) (string, bool) {
 		return b.String(), true
 	case "busy3":
 		return site(3, "A", hooks(0, 1)...), true
+	case "udp1":
+		// the site of A1; during the attempt QUIC is enabled and the UDP half of the address is held by somebody else:
+		// Listen() (or the duplication of the old listener) succeeds, ListenPacket() of the SAME server fails
+		return site(1, "A", hooks(0, 1)...), true
 	case "leak13":
 		return site(1, "A", hooks(0, 2)...) + site(3, "A", hooks(1, 2)...), true
 	case "leak123":
@@ -534,6 +539,7 @@ func c08Eval(f []string) (string, []string) {
 	bad := false
 	for _, opS := range f {
 		res := "ok"
+		var udpHeld net.PacketConn
 		switch {
 		case strings.HasPrefix(opS, "L:") || strings.HasPrefix(opS, "V:") || strings.HasPrefix(opS, "R:"):
 			text, ok := c08Config(opS[2:], p)
@@ -542,6 +548,12 @@ func c08Eval(f []string) (string, []string) {
 				break
 			}
 			c08WriteHtpasswd(opS[2:])
+			if base, _, _ := c08SplitKind(opS[2:]); base == "udp1" {
+				if pc, perr := net.ListenPacket("udp", fmt.Sprintf("127.0.0.1:%d", p[1])); perr == nil {
+					udpHeld = pc
+				}
+				httpserver.QUIC = true
+			}
 			in := casket.CasketfileInput{ServerTypeName: "http", Filepath: "verif-" + opS[2:], Contents: []byte(text)}
 			tags["kind-"+opS[2:]] = true
 			switch {
@@ -607,6 +619,10 @@ func c08Eval(f []string) (string, []string) {
 			tags["stop"] = true
 		default:
 			bad = true
+		}
+		httpserver.QUIC = false // only the udp1 kind switches it on, for the duration of its attempt
+		if udpHeld != nil {
+			udpHeld.Close()
 		}
 		if bad {
 			break
@@ -702,7 +718,12 @@ func c08Gen(g *hx.Gen) {
 	// the number of hooks a FAILING configuration registers, at every stage a failure can occur at after `on` has run
 	// (and at one before it), through every way of loading, in a process whose registry is empty, holds the hooks of a
 	// running instance, or holds hooks of an earlier validation; then a valid load
-	stages := []string{"argE", "argL", "tlsM", "logE", "mux", "busy3", "leak13", "leak123"}
+	stages := []string{"argE", "argL", "tlsM", "logE", "mux", "busy3", "leak13", "leak123", "udp1"}
+	// the address's TCP half is free, its UDP half is not: the failure comes AFTER this server's own listener was obtained
+	for _, c := range [][]string{{"L:udp1", "L:A1"}, {"L:udp1", "L:B12"}, {"L:A1", "L:udp1", "L:B12"}, {"L:A1", "R:udp1", "L:O1"},
+		{"L:udp1", "L:udp1", "L:O1"}, {"L:B12", "L:udp1.h2", "X", "L:A1"}, {"R:udp1.h3", "R:A1"}} {
+		g.Case(c...)
+	}
 	counts := []int{0, 2, 3, 5}
 	contexts := [][]string{{}, {"L:A1"}, {"L:H1.h2"}, {"V:H1.h3"}, {"L:HH12", "X"}}
 	if g.Thorough() {
@@ -729,7 +750,7 @@ func c08Gen(g *hx.Gen) {
 		N = 6000
 	}
 	valid := []string{"A1", "B12", "C2", "H1", "HH12", "O1", "OB12", "Pa1", "Pb1", "Qa1"}
-	hookable := []string{"H1", "argE", "argL", "tlsM", "logE", "mux", "busy3", "leak13", "leak123"}
+	hookable := []string{"H1", "argE", "argL", "tlsM", "logE", "mux", "busy3", "leak13", "leak123", "udp1"}
 	kind := func() string {
 		if g.Rng.Intn(4) == 0 {
 			return fmt.Sprintf("%s.h%d", hx.Pick(g.Rng, hookable), g.Rng.Intn(10))
